@@ -411,7 +411,9 @@ class LinearCombination(Expression):
         coefficients: np.ndarray,
         vector: VectorVariable | VectorExpression,
     ) -> None:
-        coefficients = np.asarray(coefficients)
+        # (a private copy: values, LP data and cached derivatives must all describe
+        # the same numbers, also if the caller later writes into its array)
+        coefficients = np.array(coefficients)
         vec_size = vector.size if hasattr(vector, "size") else len(vector)
         if len(coefficients) != vec_size:
             raise DimensionMismatchError(
